@@ -132,6 +132,17 @@ class Isobaric(Canonical[MoveType, CriteriaType], Generic[MoveType, CriteriaType
 
         super().validate_simulation()
 
+    def save_state(self) -> None:
+        """
+        Save the current state of the context and notify the moves if the cell has
+        changed, by calling their `on_cell_changed` method.
+        """
+        if (self.atoms.cell.array != self.context.last_cell.array).any():
+            for move_storage in self.moves.values():
+                move_storage.move.on_cell_changed(self.atoms.get_cell())
+
+        super().save_state()
+
     def revert_state(self) -> None:
         """
         Revert to the previously saved state and undo the last move.
